@@ -82,12 +82,6 @@ class QueryFamily:
                     ok = False
             if ok:
                 return 'C05-wildcard-retrieval'
-        # C16-repeated-element-dedup: an inner collection repeats an element and the condition has a disjunction: the
-        # value-based de-duplication of the else-if drops the repeated row (caching disabled) - same row SET everywhere
-        if not isinstance(srows, str) and repeated_flat_element(case) and 'or' in cond_ops(case['cond'], {}):
-            sets = [set(parse_rows(io[k])) if not isinstance(parse_rows(io[k]), str) else None for k in self.observed()]
-            if all(x == set(srows) for x in sets):
-                return 'C16-repeated-element-dedup'
         return None
 
     def nontrivial(self, case, io):
